@@ -47,6 +47,7 @@ def run(ctx: Ctx) -> None:
     ctx.rule("C09.R6", "_handle_events dispatches all eight h2 events; WINDOW_UPDATE (stream and connection level), INITIAL_WINDOW_SIZE changes and RST_STREAM reach unblock + wake-up", floor=14)
     ctx.rule("C09.R7", "received DATA is acknowledged with its flow-controlled length on every non-exceptional path of the DataReceived arm", floor=2)
     ctx.rule("C09.R8", "every h2 state change that produces bytes is followed by _flush() on every normal path of the same function", floor=8)
+    ctx.rule("C09.R10", "a stream inserted into the priority tree starts blocked (it has nothing to send yet): every insert_stream is followed by block() of the same id, otherwise the send task picks a stream without data/buffer and dies", floor=2)
     ctx.rule("C09.R9", "body data is queued in order: one buffer per stream, push appends at the end, pop removes from the front", floor=4)
 
     sd = repo.func(M, "H2Protocol._send_data")
@@ -105,6 +106,17 @@ def run(ctx: Ctx) -> None:
             ok = gs_.dominates(has_call("self.has_data.set"), nid) and gs_.dominates(has_call("self.priority.unblock"), nid)
             ctx.check("C09.R3", f"{M}:H2Protocol.stream_send", f"unblock + wake-up before the blocking {blocking.split('.')[-1]}()", ok,
                       f"{blocking.split('.')[-1]}() can wait (buffer above the high-water mark / not yet drained) for the send task, which is only woken afterwards: a chunk of 32 KiB or more deadlocks the response", gs_.node(nid).ast)
+    for name, fn in h2p.items():
+        ins = find_calls(fn, "self.priority.insert_stream")
+        if not ins:
+            continue
+        gi = CFG(fn)
+        for nid in gi.where(has_call("self.priority.insert_stream")):
+            call = [c for c in ins if any(c is x for x in ast.walk(gi.node(nid).ast))][0]
+            sid = norm(arg(call, 0, "stream_id"))
+            blk = has_stmt(lambda n, _sid=sid: isinstance(n, ast.Call) and call_name(n) == "self.priority.block" and n.args and norm(n.args[0]) == _sid)
+            wit = gi.must_pass(nid, [gi.exit], blk, skip_labels=("exc", "uncaught", "catch"))
+            ctx.check("C09.R10", f"{M}:H2Protocol.{name}", f"insert_stream({sid}) -> block({sid})", wit is None, "a freshly inserted stream stays unblocked: next(self.priority) hands it to _send_data before it has a buffer (KeyError inside the handler kills the send task and with it every stream of the connection): " + explain(gi, wit), call)
     # R4
     st = repo.func(M, "H2Protocol.send_task")
     g = CFG(st)
